@@ -4,6 +4,7 @@ package main
 // must-reach, success-implies.
 
 import (
+	"go/constant"
 	"fmt"
 	"go/token"
 	"go/types"
@@ -151,8 +152,197 @@ func pureOperand(v ssa.Value) (string, bool) {
 	return "", false
 }
 
-// lits decomposes "cond has truth value `truth`" into normalised literals.
+// lits decomposes "cond has truth value `truth`" into normalised literals, saturated with their equivalent spellings.
 func (fa *FuncAnalysis) lits(cond ssa.Value, truth bool, depth int) []Lit {
+	return fa.saturate(fa.lits0(cond, truth, depth))
+}
+
+// derivedLits marks literals added by saturate (equivalent spellings); reports print only the literals as written.
+var derivedLits = map[*Term]bool{}
+
+func intConst(t *Term) (int64, bool) {
+	if t == nil || t.Op != "const" {
+		return 0, false
+	}
+	if c, ok := t.V.(*ssa.Const); ok && c.Value != nil && c.Value.Kind() == constant.Int {
+		if bt, isb := c.Type().Underlying().(*types.Basic); isb && bt.Info()&types.IsInteger != 0 {
+			v, exact := constant.Int64Val(c.Value)
+			return v, exact
+		}
+	}
+	return 0, false
+}
+
+func isStringTerm(t *Term) bool {
+	if t == nil || t.V == nil {
+		return false
+	}
+	bt, ok := t.V.Type().Underlying().(*types.Basic)
+	return ok && bt.Info()&types.IsString != 0
+}
+
+func isIntTerm(t *Term) bool {
+	if t == nil {
+		return false
+	}
+	if t.Op == "len" {
+		return true
+	}
+	if t.V == nil {
+		return false
+	}
+	bt, ok := t.V.Type().Underlying().(*types.Basic)
+	return ok && bt.Info()&types.IsInteger != 0
+}
+
+// saturate adds, for every comparison literal, the other spellings of the same fact: swapped operands of == / !=,
+// ¬(a<b) as b<=a, integer bounds shifted by one (x > 0 ⇔ x >= 1, len(x) < 1 ⇔ len(x) == 0), emptiness of a string as
+// its length, and slices.Index(s, v) >= 0 as slices.Contains(s, v). All added literals are equivalent to one already
+// present, so a gate that holds with them holds without them; rules can then name ONE spelling.
+func (fa *FuncAnalysis) saturate(in []Lit) []Lit {
+	seen := map[string]bool{}
+	key := func(l Lit) string { return fmt.Sprint(l.Pos) + l.T.str(12) }
+	out := []Lit{}
+	for _, l := range in {
+		if l.T == nil {
+			continue
+		}
+		seen[key(l)] = true
+		out = append(out, l)
+	}
+	mkConst := func(like *Term, v int64) *Term {
+		var ty types.Type = types.Typ[types.Int]
+		if like != nil && like.V != nil {
+			ty = like.V.Type()
+		}
+		c := ssa.NewConst(constant.MakeInt64(v), ty)
+		return &Term{Op: "const", Name: fmt.Sprint(v), V: c}
+	}
+	mkStr := func() *Term {
+		c := ssa.NewConst(constant.MakeString(""), types.Typ[types.String])
+		return &Term{Op: "const", Name: "", V: c}
+	}
+	for round := 0; round < 4; round++ {
+		var add []Lit
+		push := func(op string, a, b *Term, pos bool, at ssa.Value) {
+			t := &Term{Op: op, Args: []*Term{a, b}, V: at}
+			l := Lit{t, pos}
+			if k := key(l); !seen[k] {
+				seen[k] = true
+				derivedLits[t] = true
+				add = append(add, l)
+			}
+		}
+		for _, l := range out {
+			// slices.Index(s, v) compared with 0 / -1
+			a, b, op, ok := Cmp(l)
+			if !ok {
+				continue
+			}
+			at := l.T.V
+			switch op {
+			case "==", "!=":
+				pos := op == "=="
+				push("eq", b, a, pos, at)
+				// x == !y  ⇔  x != y
+				if b.Op == "not" && len(b.Args) == 1 {
+					push("eq", a, b.Args[0], !pos, at)
+				}
+				if a.Op == "not" && len(a.Args) == 1 {
+					push("eq", a.Args[0], b, !pos, at)
+				}
+				for _, pr := range [][2]*Term{{a, b}, {b, a}} {
+					x, k := pr[0], pr[1]
+					if nonNegTerm(x) && k.IsConst("0") {
+						// len(x) == 0  ⇔  ¬(0 < len(x))  ⇔  len(x) <= 0 ⇔ len(x) < 1
+						push("lt", k, x, !pos, at)
+						push("lt", x, mkConst(k, 1), pos, at)
+						if x.Op == "len" && len(x.Args) == 1 && isStringTerm(x.Args[0]) {
+							push("eq", x.Args[0], mkStr(), pos, at)
+						}
+					}
+					if isStringTerm(x) && x.Op != "const" && k.Op == "const" && k.Name == "" && isStringTerm(k) {
+						ln := &Term{Op: "len", Args: []*Term{x}}
+						push("eq", ln, mkConst(nil, 0), pos, at)
+					}
+					if fa.p.IsCall(x, "slices.Index") && len(x.Args) == 2 {
+						if v, isInt := intConst(k); isInt && v == -1 {
+							ct := &Term{Op: "call", Name: "slices.Contains", Args: x.Args, Call: x.Call, V: at}
+							l2 := Lit{ct, !pos}
+							if kk := key(l2); !seen[kk] {
+								seen[kk] = true
+								derivedLits[ct] = true
+								add = append(add, l2)
+							}
+						}
+					}
+				}
+			case "<", "<=":
+				// a < b ⇔ ¬(b <= a);  a <= b ⇔ ¬(b < a)
+				if op == "<" {
+					push("lt", a, b, true, at)
+					push("le", b, a, false, at)
+				} else {
+					push("le", a, b, true, at)
+					push("lt", b, a, false, at)
+				}
+				if v, isInt := intConst(a); isInt && isIntTerm(b) {
+					if op == "<" { // c < b ⇔ c+1 <= b
+						push("le", mkConst(a, v+1), b, true, at)
+					} else { // c <= b ⇔ c-1 < b
+						push("lt", mkConst(a, v-1), b, true, at)
+					}
+				}
+				if v, isInt := intConst(b); isInt && isIntTerm(a) {
+					if op == "<" { // a < c ⇔ a <= c-1
+						push("le", a, mkConst(b, v-1), true, at)
+					} else { // a <= c ⇔ a < c+1
+						push("lt", a, mkConst(b, v+1), true, at)
+					}
+				}
+				// 0 < len(x) ⇔ len(x) != 0 ;  len(x) <= 0 ⇔ len(x) == 0 (a length is never negative)
+				if op == "<" && a.IsConst("0") && nonNegTerm(b) {
+					push("eq", b, a, false, at)
+				}
+				if op == "<=" && b.IsConst("0") && nonNegTerm(a) {
+					push("eq", a, b, true, at)
+				}
+				// 0 <= slices.Index(s, v) ⇔ slices.Contains(s, v);  slices.Index(s, v) < 0 ⇔ ¬Contains
+				for _, pr := range []struct {
+					x, k *Term
+					pos  bool
+				}{{b, a, true}, {a, b, false}} {
+					x, k := pr.x, pr.k
+					if fa.p.IsCall(x, "slices.Index") && len(x.Args) == 2 {
+						v, isInt := intConst(k)
+						hit := false
+						if pr.pos { // k (<|<=) Index
+							hit = isInt && ((op == "<=" && v == 0) || (op == "<" && v == -1))
+						} else { // Index (<|<=) k
+							hit = isInt && ((op == "<" && v == 0) || (op == "<=" && v == -1))
+						}
+						if hit {
+							ct := &Term{Op: "call", Name: "slices.Contains", Args: x.Args, Call: x.Call, V: at}
+							l2 := Lit{ct, pr.pos}
+							if kk := key(l2); !seen[kk] {
+								seen[kk] = true
+								derivedLits[ct] = true
+								add = append(add, l2)
+							}
+						}
+					}
+				}
+			}
+		}
+		if len(add) == 0 {
+			break
+		}
+		out = append(out, add...)
+	}
+	return out
+}
+
+func (fa *FuncAnalysis) lits0(cond ssa.Value, truth bool, depth int) []Lit {
 	p := fa.p
 	if depth > 6 {
 		return nil
@@ -160,7 +350,7 @@ func (fa *FuncAnalysis) lits(cond ssa.Value, truth bool, depth int) []Lit {
 	switch x := cond.(type) {
 	case *ssa.UnOp:
 		if x.Op == token.NOT {
-			return fa.lits(x.X, !truth, depth+1)
+			return fa.lits0(x.X, !truth, depth+1)
 		}
 	case *ssa.Const:
 		return nil
@@ -179,10 +369,10 @@ func (fa *FuncAnalysis) lits(cond ssa.Value, truth bool, depth int) []Lit {
 				return append([]Lit{{&Term{Op: "eq", Args: []*Term{a, b}, V: x}, eq}}, out...)
 			}
 			if b.IsConst("true") {
-				return fa.lits(x.X, eq, depth+1)
+				return fa.lits0(x.X, eq, depth+1)
 			}
 			if b.IsConst("false") {
-				return fa.lits(x.X, !eq, depth+1)
+				return fa.lits0(x.X, !eq, depth+1)
 			}
 			return []Lit{{&Term{Op: "eq", Args: []*Term{a, b}, V: x}, eq}}
 		case token.LSS:
@@ -213,12 +403,40 @@ func (fa *FuncAnalysis) lits(cond ssa.Value, truth bool, depth int) []Lit {
 		// source condition. A flag variable assigned earlier (e.g. the result slot of an inlined helper) is re-tested, not
 		// tested: its edges get no implied literals — the path search remembers the flag's value instead (see Reach).
 		if n == 1 && x.Block().Comment == "binop.done" {
-			out = append(out, fa.lits(other, truth, depth+1)...)
+			out = append(out, fa.lits0(other, truth, depth+1)...)
 			out = append(out, fa.incomingLits(x.Block(), otherIdx, depth+1)...)
 		}
 		return out
 	}
+	// a boolean parameter of a function with a single call site IS the caller's argument (`f(host, state.IsOffline)`)
+	if prm, ok := cond.(*ssa.Parameter); ok && isBoolType(prm.Type()) && depth < 4 {
+		if arg, caller := fa.p.uniqueCallArg(prm); arg != nil {
+			return append([]Lit{{p.T(cond), truth}}, fa.p.FA(caller).lits0(arg, truth, depth+2)...)
+		}
+	}
 	return []Lit{{p.T(cond), truth}}
+}
+
+// uniqueCallArg: the argument bound to prm at the only (static, in-module) call site of its function.
+func (p *Prog) uniqueCallArg(prm *ssa.Parameter) (ssa.Value, *ssa.Function) {
+	fn := prm.Parent()
+	if fn == nil || p.CG == nil {
+		return nil, nil
+	}
+	node := p.CG.Nodes[fn]
+	if node == nil || len(node.In) != 1 {
+		return nil, nil
+	}
+	site := node.In[0].Site
+	if site == nil || site.Common().StaticCallee() != fn {
+		return nil, nil
+	}
+	for i, q := range fn.Params {
+		if q == prm && i < len(site.Common().Args) {
+			return site.Common().Args[i], site.Parent()
+		}
+	}
+	return nil, nil
 }
 
 // incomingLits: literals that hold when block b is entered through predecessor #pi.
@@ -539,6 +757,9 @@ func (fa *FuncAnalysis) PathString(path []pathStep) string {
 		lits := fa.EdgeLits(st.B, st.Si)
 		var ls []string
 		for _, l := range lits {
+			if derivedLits[l.T] {
+				continue
+			}
 			ls = append(ls, l.T.str(3))
 			if !l.Pos {
 				ls[len(ls)-1] = "¬" + ls[len(ls)-1]
@@ -933,4 +1154,43 @@ func (fa *FuncAnalysis) enterPhis(nk map[string]bool, b *ssa.BasicBlock, si int)
 		nk = cp
 	}
 	return nk
+}
+
+// nonNegTerm: a length, or a counter (a phi whose alternatives are the constant 0 and increments by a positive constant).
+func nonNegTerm(t *Term) bool {
+	if t == nil {
+		return false
+	}
+	if t.Op == "len" {
+		return true
+	}
+	if t.Op != "phi" || len(t.Args) == 0 {
+		return false
+	}
+	var ok func(x *Term, d int) bool
+	ok = func(x *Term, d int) bool {
+		if d > 6 || x == nil {
+			return false
+		}
+		switch x.Op {
+		case "cycle":
+			return true
+		case "const":
+			v, isInt := intConst(x)
+			return isInt && v >= 0
+		case "phi":
+			for _, a := range x.Args {
+				if !ok(a, d+1) {
+					return false
+				}
+			}
+			return len(x.Args) > 0
+		case "bin":
+			if x.Name == "+" && len(x.Args) == 2 {
+				return ok(x.Args[0], d+1) && ok(x.Args[1], d+1)
+			}
+		}
+		return false
+	}
+	return ok(t, 0)
 }
